@@ -32,7 +32,7 @@ from ..rigs import fwd_rig as R
 WORKERS = 8
 MAXHOPS = 2
 DEVS    = ['DevKeepFwd', 'DevL2PAnyOrigin', 'DevL2PIgnoreFwd', 'DevP2LNoSelfDrop',
-           'DevResultCopiesFwd', 'DevBulkHeadDecides']
+           'DevResultCopiesFwd', 'DevBulkHeadDecides', 'DevRepublishOnTimeout']
 STRUCT  = ['TypeOK', 'InvCleared', 'InvHopsWhere']
 PROPINV = ['InvAtMostOnce', 'InvStaysLocal', 'InvSettled', 'InvHops', 'InvRpcReturns',
            'InvRpcServedOnce', 'InvClientUpdate']
@@ -286,7 +286,8 @@ def run_rpc(npilots, seed):
     for a, b in pairs:
         r = rng.random()
         if r < 0.45:
-            rig.rpc_call(a, b, rng)
+            # the reply comes at once / after k timed-out wait periods of the caller
+            rig.rpc_call(a, b, rng, delay=rng.choice([0, 1, 1, 2, 3]))
         else:
             rig.publish_req(a, b)
             if r < 0.7:
@@ -296,6 +297,12 @@ def run_rpc(npilots, seed):
                 ls = rig.links()
                 if ls:
                     rig.deliver(rng.choice(ls))
+    # ... or never: a pilot which is gone, an address nobody serves
+    if rng.random() < 0.6:
+        rig.add_pilot_handle('pilot.9999')
+        rig.rpc_call(R.CLIENT, 'pilot.9999', rng, delay=rng.choice([0, 1, 2]))
+    if rng.random() < 0.6:
+        rig.rpc_call(rng.choice(rig.sides), 'nobody', rng, delay=rng.choice([1, 2]))
     rig.quiet(rig.drain(rng))
     return rig
 
@@ -515,6 +522,10 @@ def offending(trace):
 def classify(trace):
     if len(set(trace.get('idents', trace['sides']))) < len(trace['sides']):
         return 'side identities not distinct'
+    ruids = [e['ruid'] for e in trace['events'] if e['ev'] == 'Publish' and e.get('ruid', 'none') != 'none']
+    if len(ruids) != len(set(ruids)) or any(e['ev'] == 'Served' and e['runs'] > e['reqs']
+                                            for e in trace['events']):
+        return 'rpc request'
     if any(e['ev'] == 'Update' and e['n'] != 1 for e in trace['events']):
         return 'bulk of tasks published through advance'
     if any(e['ev'] == 'Publish' and e.get('re') for e in trace['events']) and not offending(trace):
@@ -623,9 +634,11 @@ def run(chk, tier, seed):
                   (['DevKeepFwd'], STRUCT, 'InvCleared'),
                   (['DevKeepFwd'], PROPINV, None),
                   (['DevResultCopiesFwd'], PROPINV, 'InvRpcReturns'),
-                  (['DevBulkHeadDecides'], PROPINV, 'InvClientUpdate')]
+                  (['DevBulkHeadDecides'], PROPINV, 'InvClientUpdate'),
+                  (['DevRepublishOnTimeout'], PROPINV, 'InvAtMostOnce')]
         for devs, invs, want in expect:
-            rpcdev = 'DevResultCopiesFwd' in devs or 'DevBulkHeadDecides' in devs
+            rpcdev = any(d in devs for d in ('DevResultCopiesFwd', 'DevBulkHeadDecides',
+                                             'DevRepublishOnTimeout'))
             res = tlc.run('Forward', 'Forward', 'MC.cfg', workers=WORKERS, timeout=600,
                           extra_files=mc_cfg(2, 2 if rpcdev else 1, devs=devs, invs=invs,
                                              nrpc=1 if rpcdev else 0,
@@ -806,6 +819,8 @@ def run(chk, tier, seed):
         'proxy service: one monitor pass is one step (the unlocked snapshot of _monitor is not '
         'interleaved with requests); worker processes are stand-ins whose termination event '
         'takes the hosted proxy pubsubs down; the clock is virtual (ticks of _TIMEOUT / 2)',
+        'the timed waits of a blocking rpc call run on a virtual clock: a wait period either '
+        'times out with nothing delivered or ends with everything in flight delivered',
         'an RPC is served by the component whose handler address equals the addressed side '
         '(as agent_0 registers its handlers with rpc_addr = pilot id)',
         'messages published with an origin marker naming another side count as already forwarded '
